@@ -137,9 +137,13 @@ class Sched:
         return {n: t["result"] for n, t in self.threads.items()}
 
     def _abort_all(self):
+        # Parked threads stay parked (they are daemons of a process that is about to exit):
+        # waking them would let several engine threads unwind concurrently, outside the baton.
         self.aborting = True
-        for t in self.threads.values():
-            t["evt"].set()
+
+    @staticmethod
+    def _park_forever():
+        threading.Event().wait()
 
     def _pick_first(self):
         if self.forced is not None and self.forced and self.forced[0][0] == 0:
@@ -168,7 +172,7 @@ class Sched:
             self.failure = Deadlock({n: (x["state"], x["blocked_on"]) for n, x in self.threads.items()})
             self.main_evt.set()
             if not finishing:
-                raise _Abort()
+                self._park_forever()
             return
         if to is None or to not in cands:
             if self.strategy["kind"] == "pct":
@@ -182,7 +186,7 @@ class Sched:
             t["evt"].wait()
             t["evt"].clear()
             if self.aborting:
-                raise _Abort()
+                self._park_forever()
 
     # ------------------------------------------------------------ pre-emption
     def _trace(self, frame, event, arg):
@@ -201,7 +205,7 @@ class Sched:
         except BaseException as e:  # noqa: BLE001 - a bug in the scheduler must never look like engine behaviour
             self.failure = RuntimeError("scheduler bug in trace function: %r" % (e,))
             self.main_evt.set()
-            raise _Abort()
+            self._park_forever()
 
     def _local2(self, frame, event, arg):
         if event == "line":
@@ -222,11 +226,11 @@ class Sched:
             return
         me["steps"] += 1
         if self.aborting:
-            raise _Abort()
+            self._park_forever()
         if self.steps > self.max_steps:
             self.failure = StepCap("step cap %d exceeded" % self.max_steps)
             self.main_evt.set()
-            raise _Abort()
+            self._park_forever()
         if is_shared and not opcode:
             self.shared_events += 1
             self.shared_touch.update(("%s:%s:%s;" % (me["name"], os.path.basename(frame.f_code.co_filename), frame.f_lineno)).encode())
